@@ -434,6 +434,8 @@ pub struct Env {
     pub profile: &'static str,
     /// park every case for abort capture (only for checks that feed arbitrary bytes)
     pub park: bool,
+    /// run only the sub-checks named here (the unoptimised-library child run); empty = all
+    pub only: Vec<String>,
     pub subs: Vec<SubReport>,
     pub failure: Option<Failure>,
     pub notes: Vec<String>,
@@ -455,7 +457,7 @@ fn shard_seed(seed: u64, sub: &str, shard: usize) -> [u8; 32] {
 
 impl Env {
     pub fn new(prop: &'static str, tier: Tier, seed: u64, root: PathBuf, profile: &'static str) -> Env {
-        Env { prop, tier, seed, root, profile, park: false, subs: Vec::new(), failure: None, notes: Vec::new(), required: Vec::new() }
+        Env { prop, tier, seed, root, profile, park: false, only: Vec::new(), subs: Vec::new(), failure: None, notes: Vec::new(), required: Vec::new() }
     }
 
     pub fn thorough(&self) -> bool {
@@ -494,6 +496,9 @@ impl Env {
 
     /// proptest-driven run over random tapes: `cases` per shard, tapes of at most `max_len` cells.
     pub fn run_tapes(&mut self, sub: Sub, cases: u32, max_len: usize) -> RunResult {
+        if !self.only.is_empty() && !self.only.iter().any(|n| n == sub.name) {
+            return Ok(());
+        }
         let t0 = Instant::now();
         let prop = self.prop;
         let thorough = self.thorough();
@@ -576,6 +581,9 @@ impl Env {
     where
         M: Fn(u64) -> Input + Sync,
     {
+        if !self.only.is_empty() && !self.only.iter().any(|n| n == sub.name) {
+            return Ok(());
+        }
         let t0 = Instant::now();
         let prop = self.prop;
         let thorough = self.thorough();
@@ -633,6 +641,9 @@ impl Env {
 
     /// run a fixed list of inputs (regressions, seeds, hand-written vectors), sequentially
     pub fn run_inputs(&mut self, sub: Sub, inputs: &[Input]) -> RunResult {
+        if !self.only.is_empty() && !self.only.iter().any(|n| n == sub.name) {
+            return Ok(());
+        }
         let t0 = Instant::now();
         let mut ctx = Ctx::new(self.prop, self.thorough());
         ctx.want_samples = 3;
@@ -658,6 +669,10 @@ impl Env {
 
     pub fn note(&mut self, s: impl Into<String>) {
         self.notes.push(s.into());
+    }
+
+    pub fn required_clear(&mut self) {
+        self.required.clear();
     }
 
     pub fn missing_required(&self) -> Vec<String> {
